@@ -91,6 +91,7 @@ package rr
 //@   requires real(n1) == ceil(x4) && real(n2) == ceil(2*x4) && len(q9State) == n1 && len(q1State) == n2
 //@   requires 0 <= s0 && s0 <= x1 && r0 >= 0
 //@   assigns runoff.cells, q1State[*], q9State[*]
+//@   ensures [C04.shape] rN1 == n1 && rN2 == n2 && len(rQ1) == n2 && len(rQ9) == n1 && rQ1 == q1State && rQ9 == q9State
 //@   loop 0 invariant 0 <= i && i <= n1 && len(SH1) == n1
 //@   loop 0 invariant forall(k, 0, i, SH1[k] == pow(real(k+1)/x4, 2.5))
 //@   loop 1 invariant 1 <= i && i <= n1 && len(UH1) == n1 && len(SH1) == n1
@@ -158,3 +159,61 @@ package rr
 //@   loop 0 invariant 0 <= i && i <= 5 && len(base) == 5 && sum == uh1+uh2+uh3+uh4+uh5
 //@   loop 0 invariant forall(k, 0, i, base[k]*sum == ite(k == 0, uh1, ite(k == 1, uh2, ite(k == 2, uh3, ite(k == 3, uh4, uh5)))))
 //@   loop 0 invariant forall(k, i, 5, base[k] == ite(k == 0, uh1, ite(k == 1, uh2, ite(k == 2, uh3, ite(k == 3, uh4, uh5)))))
+
+// ---- C04/C06: GR4J state packing and the GR4J wrapper (hand-written: custom state layout) ----
+// state row: [S, R, n1, n2, q1 (n2 values), q9 (n1 values)]
+
+//@ func packGR4JStates(s, r, n1, n2, q1, q9) returns (result)
+//@   ndmodel locations
+//@   requires n1 >= 0 && n2 >= 0 && len(q1) == n2 && len(q9) == n1
+//@   assigns nothing
+//@   fresh result
+//@   ensures [C04.pack-shape] result != nil && result.rank == 2 && result.dim(0) == 1 && result.dim(1) == 4 + n1 + n2 && result.root == result.ref && injective(result)
+//@   ensures [C06.pack-production-store,C04.pack-production-store] result.elem(0, 0) == s
+//@   ensures [C06.pack-routing-store,C04.pack-routing-store] result.elem(0, 1) == r
+//@   ensures [C06.pack-uh-lengths,C04.pack-uh-lengths] result.elem(0, 2) == real(n1) && result.elem(0, 3) == real(n2)
+//@   ensures [C06.pack-buffers,C04.pack-buffers] forall(k, 0, n2, result.elem(0, 4 + k) == q1[k]) && forall(k, 0, n1, result.elem(0, 4 + n2 + k) == q9[k])
+
+//@ func extractGR4JStates(states) returns (s, r, n1, n2, q1, q9)
+//@   ndmodel locations
+//@   requires states != nil && states.rank == 1 && states.dim(0) >= 4
+//@   requires states.elem(2) >= 0 && states.elem(3) >= 0 && 4 + int(states.elem(2)) + int(states.elem(3)) <= states.dim(0)
+//@   assigns nothing
+//@   fresh q1, q9
+//@   ensures [C06.extract-scalars,C04.extract-scalars] s == states.elem(0) && r == states.elem(1) && n1 == int(states.elem(2)) && n2 == int(states.elem(3))
+//@   ensures [C06.extract-buffers,C04.extract-buffers] len(q1) == n2 && len(q9) == n1 && forall(k, 0, n2, q1[k] == states.elem(4 + k)) && forall(k, 0, n1, q9[k] == states.elem(4 + n2 + k))
+
+//@ func (*GR4J).ApplyParameters(m, parameters)
+//@   ndmodel locations
+//@   requires parameters.rank == 2 && parameters.dim(0) >= 4 && parameters.dim(1) >= 1
+//@   assigns m.X1, m.X2, m.X3, m.X4
+//@   ensures [C04.param-view] m.X1 != nil && m.X1.rank == 1 && m.X1.dim(0) == parameters.dim(1) && m.X1.root == parameters.root && forall(c, 0, parameters.dim(1), m.X1.idx(c) == parameters.idx(0, c))
+//@   ensures [C04.param-view] m.X2 != nil && m.X2.rank == 1 && m.X2.dim(0) == parameters.dim(1) && m.X2.root == parameters.root && forall(c, 0, parameters.dim(1), m.X2.idx(c) == parameters.idx(1, c))
+//@   ensures [C04.param-view] m.X3 != nil && m.X3.rank == 1 && m.X3.dim(0) == parameters.dim(1) && m.X3.root == parameters.root && forall(c, 0, parameters.dim(1), m.X3.idx(c) == parameters.idx(2, c))
+//@   ensures [C04.param-view] m.X4 != nil && m.X4.rank == 1 && m.X4.dim(0) == parameters.dim(1) && m.X4.root == parameters.root && forall(c, 0, parameters.dim(1), m.X4.idx(c) == parameters.idx(3, c))
+
+//@ func (*GR4J).Run(m, inputs, states, outputs)
+//@   ndmodel locations
+//@   requires inputs.rank == 3 && states.rank == 2 && outputs.rank == 3
+//@   requires inputs.dim(0) >= 1 && inputs.dim(1) == 2 && inputs.dim(2) >= 0 && states.dim(0) >= 0 && states.dim(1) >= 4
+//@   requires outputs.dim(0) >= states.dim(0) && outputs.dim(1) >= 1 && outputs.dim(2) >= inputs.dim(2)
+//@   requires injective(states) && injective(outputs) && injective(inputs)
+//@   requires inputs.root != states.root && inputs.root != outputs.root && states.root != outputs.root
+//@   requires m.X1 != nil && m.X1.rank == 1 && m.X1.dim(0) >= 1 && m.X1.root != states.root && m.X1.root != outputs.root
+//@   requires m.X2 != nil && m.X2.rank == 1 && m.X2.dim(0) >= 1 && m.X2.root != states.root && m.X2.root != outputs.root
+//@   requires m.X3 != nil && m.X3.rank == 1 && m.X3.dim(0) >= 1 && m.X3.root != states.root && m.X3.root != outputs.root
+//@   requires m.X4 != nil && m.X4.rank == 1 && m.X4.dim(0) >= 1 && m.X4.root != states.root && m.X4.root != outputs.root
+//@   requires forall(c, 0, states.dim(0), states.elem(c, 2) >= 0 && states.elem(c, 3) >= 0 && 4 + int(states.elem(c, 2)) + int(states.elem(c, 3)) <= states.dim(1))
+//@   assigns nothing
+//@   writes wroot == states.root && exists(s, 0, states.dim(1), widx == states.idx(i, s))
+//@   writes wroot == outputs.root && exists(o, 0, outputs.dim(1), exists(t, 0, outputs.dim(2), widx == outputs.idx(i, o, t)))
+//@   callsite gr4j [C04.arg-input] arg0.dim(0) == inputs.dim(2) && arg0.root == inputs.root && forall(t, 0, inputs.dim(2), arg0.idx(t) == inputs.idx(i % inputs.dim(0), 0, t))
+//@   callsite gr4j [C04.arg-input] arg1.dim(0) == inputs.dim(2) && arg1.root == inputs.root && forall(t, 0, inputs.dim(2), arg1.idx(t) == inputs.idx(i % inputs.dim(0), 1, t))
+//@   callsite gr4j [C04.arg-state] arg2 == states.elem(i, 0) && arg3 == states.elem(i, 1) && arg4 == int(states.elem(i, 2)) && arg5 == int(states.elem(i, 3))
+//@   callsite gr4j [C04.arg-state] len(arg6) == arg5 && len(arg7) == arg4 && forall(k, 0, arg5, arg6[k] == states.elem(i, 4 + k)) && forall(k, 0, arg4, arg7[k] == states.elem(i, 4 + arg5 + k))
+//@   callsite gr4j [C04.arg-param] arg8 == m.X1.elem(i % m.X1.dim(0)) && arg9 == m.X2.elem(i % m.X2.dim(0)) && arg10 == m.X3.elem(i % m.X3.dim(0)) && arg11 == m.X4.elem(i % m.X4.dim(0))
+//@   callsite gr4j [C04.arg-output,C05.writes-own-rows] arg12.dim(0) == inputs.dim(2) && arg12.root == outputs.root && forall(t, 0, inputs.dim(2), arg12.idx(t) == outputs.idx(i, 0, t))
+//@   atsend [C04.state-back] states.elem(i, 0) == s && states.elem(i, 1) == r && states.elem(i, 2) == real(n1) && states.elem(i, 3) == real(n2)
+//@   atsend [C04.state-back] forall(k, 0, n2, states.elem(i, 4 + k) == q1[k]) && forall(k, 0, n1, states.elem(i, 4 + n2 + k) == q9[k])
+//@   loop 0 invariant 0 <= j && j <= numCells
+//@   loop 0 invariant forall(c, j, states.dim(0), states.elem(c, 2) >= 0 && states.elem(c, 3) >= 0 && 4 + int(states.elem(c, 2)) + int(states.elem(c, 3)) <= states.dim(1))
